@@ -768,6 +768,67 @@ def check_c11(tier, seed):
     return res.finish()
 
 
+def registries_for_description(wd, tier, seed, res, mc_module, fams, extra_const=""):
+    """MC over (registry, id) of the families; returns registries (CASE lines) + corpus registries"""
+    regs = []
+    for f in fams:
+        out = tlc_run(os.path.join(SPEC, "mc", mc_module), os.path.join(SPEC, "mc", mc_module.replace(".tla", f"_{f}.cfg")),
+                      os.path.join(wd, f"mc_{f}.out"), os.path.join(wd, "md"), workers=8, timeout=1800, xmx="8g")
+        res.add_mc(tlc_summary(out))
+        for c in tlc_lines(out, "CASE "):
+            regs.append({"fam": f, "reg": c["reg"]})
+    subprocess.run([VH, "corpus", os.path.join(wd, "corpus.ndjson")], check=True)
+    for e in read_ndjson(os.path.join(wd, "corpus.ndjson")):
+        if len(e["reg"]) <= 40:
+            regs.append({"fam": "corpus:" + e["name"], "reg": e["reg"]})
+    return regs
+
+
+def check_c13(tier, seed):
+    res = Result("C13", tier, seed)
+    wd = workdir("C13")
+    regs = registries_for_description(wd, tier, seed, res, "MC_C13.tla", ["G1c", "G8", "G1a_1", "G2p_2"])
+    n_all = len(regs)
+    rnd = random.Random(seed)
+    if tier == "quick":
+        keep = [r for r in regs if not r["fam"].startswith("G1a") and r["fam"] != "G2p_2"]
+        rest = [r for r in regs if r["fam"].startswith("G1a") or r["fam"] == "G2p_2"]
+        rnd.shuffle(rest)
+        regs = keep + rest[:900]
+    recs = [{"case": i, "fam": r["fam"], "reg": r["reg"], "ids": []} for i, r in enumerate(regs)]
+    write_ndjson(os.path.join(wd, "cases.ndjson"), recs)
+    harness_run("desc", os.path.join(wd, "cases.ndjson"), os.path.join(wd, "obs.ndjson"), jobs=12, stall=30)
+    obs = read_ndjson(os.path.join(wd, "obs.ndjson"))
+    for o in obs:
+        if o.get("crash"):
+            res.violations.append((f"C13: description did not terminate / aborted the process ({o['crash']})", recs[o["i"]]))
+    if res.violations:
+        return res.finish()
+    verdicts, summ = tv_parallel(os.path.join(SPEC, "tv", "TV_C13.tla"), os.path.join(SPEC, "tv", "TV_C13.cfg"),
+                                 os.path.join(wd, "obs.ndjson"), wd, nproc=8, workers=2)
+    res.add_mc(summ)
+    expected = sum(len(o["descs"]) for o in obs)
+    if len(verdicts) != expected:
+        raise ToolError(f"TV judged {len(verdicts)} of {expected} descriptions")
+    account(res, "C13", verdicts_with_fam(verdicts), lambda cid: recs[cid], ["C13."], load_findings())
+    res.traces = len(verdicts)
+    res.evaluations = len(verdicts)
+    res.nontrivial = sum(1 for v in verdicts if v["nontrivial"])
+    res.drift = sum(1 for v in verdicts if v["drift"])
+    res.extra["registries_model_checked"] = n_all
+    res.rule = ("MC: for every registry of G1a (depth<=1), G1c, G8 and the same-path families G2p and every id the concrete model of type_description terminates successfully and its "
+                "tokens are accepted by the abstract acceptor DescAccepts (lock-step walk of registry and tokens; every struct/enum reachable through fields and elements expanded at "
+                "least once, otherwise name + arguments); TV: the real crate describes every id of a seeded sample (quick) / all (thorough) of these registries and of the compiled "
+                "corpus, formatted and unformatted; the enter/short/exit hook events are stepped through the Transformer protocol actions with the invariant 'no named id twice on the "
+                "stack', the lexed text is judged by DescAccepts and compared with the model's prediction, formatted = unformatted modulo whitespace; non-termination shows as a worker "
+                "timeout; non-trivial = the id is a struct or enum; distinct by (registry, id)")
+    res.samples = [{"family": r["fam"], "registry": r["reg"][:2]} for r in recs[:: max(1, len(recs) // 3)][:3]]
+    res.assumptions = ["TLC and CommunityModules", "harness lexer: identifier/number runs and single punctuation characters, whitespace dropped", "ScaleInfo.tla (E0)"]
+    if res.drift:
+        print(f"DRIFT property=C13 cases={res.drift}")
+    return res.finish()
+
+
 def check_c10(tier, seed):
     res = Result("C10", tier, seed)
     wd = workdir("C10")
@@ -918,7 +979,7 @@ def check_e0_cmd(tier, seed):
     return 0
 
 
-CHECKS = {"C15": check_c15, "E0": check_e0_cmd, "C01": check_c01, "C02": check_c02, "C03": check_c03, "C04": check_c04, "C10": check_c10, "C05": check_c05, "C17": check_c17, "C18": check_c18, "C07": check_c07, "C08": check_c08, "C09": check_c09, "C16": check_c16, "C11": check_c11}
+CHECKS = {"C15": check_c15, "E0": check_e0_cmd, "C01": check_c01, "C02": check_c02, "C03": check_c03, "C04": check_c04, "C10": check_c10, "C05": check_c05, "C17": check_c17, "C18": check_c18, "C07": check_c07, "C08": check_c08, "C09": check_c09, "C16": check_c16, "C11": check_c11, "C13": check_c13}
 
 
 def selfcheck():
